@@ -9,6 +9,7 @@ machine over all token trees).  Decided on the MIR of `indextree_macros::tree` a
   (6) stack discipline: initial stack = nodes reversed; marker pushed below the children on the stack the loop pops; children reversed, taken from the popped node;
       Append carries the popped node's expression
   (7) cursor machine: Append assigns `last = node.append_value(expr, arena)`, Nest assigns `node = last`, Parent assigns `node = <parent of node>`; the block's value is the root id
+  (9) generated actions are dropped only by the test for a trailing Parent
   (8) no function other than the analysed templates (Action::to_stream, tree) emits tokens
   (4) the templates name only the API functions append_value, new_node, get, parent, unwrap (read from the identifier constants emitted by quote!)
 """
@@ -223,6 +224,24 @@ def main(tier):
     stray = [k for k in emitters if k not in known and not any(k.startswith(kn + "::{closure") for kn in known)]
     run.ob("generators", "tokens are emitted only by the analysed templates (%s): %s" % (sorted(k.rsplit("::", 1)[-1] for k in known), emitters), not stray,
            key="generators|code is also generated in %s" % ",".join(stray), detail=emitters, nontrivial="generators", sample=True)
+    # (9) pruning of the action list: if generated actions are ever dropped (Vec::pop on the list of action streams), the only kind the pruning may test for is a
+    #     trailing Parent (climbing back after the last node is unobservable); dropping an Append or a Nest loses a node or mis-nests what follows
+    apops = [(k, bi) for k, f2 in prog.fns.items() if "mir" in f2 and not f2.get("impl_derived") for bi, t in prog.calls(f2)
+             if rules.callee_name(t["callee"]) == "alloc::vec::Vec::<T, A>::pop" and any(prog.tys(a) == "crate::ActionStream" for a in (t["callee"].get("args") or []) if isinstance(a, int))]
+    if apops:
+        kinds = set()
+        for k, f2 in prog.fns.items():
+            if "mir" not in f2 or f2.get("impl_derived"):
+                continue
+            bodies = [f2["mir"]] + list(f2.get("promoted") or [])
+            for body in bodies:
+                for blk in body["blocks"]:
+                    for st_ in blk["stmts"]:
+                        if st_["k"] == "assign" and st_["rv"]["k"] == "aggregate" and st_["rv"].get("adt") == "crate::ActionKind":
+                            kinds.add(st_["rv"].get("variant"))
+        run.ob("pruning", "generated actions are dropped only by a test for a trailing Parent (kinds tested: %s)" % sorted(kinds), kinds <= {"Parent"} and len(apops) == 1,
+               key="pruning|the action list is pruned by a test for %s" % sorted(kinds - {"Parent"}) if kinds - {"Parent"} else "pruning|%d sites drop generated actions" % len(apops),
+               detail={"pop sites": apops, "kinds": sorted(kinds)}, nontrivial="pruning")
     # (4) API named by the templates
     ids_tree = [s for _, s in idents_of(prog, f)]
     ids_act = [s for _, s in idents_of(prog, g)]
